@@ -490,6 +490,10 @@ func execReaderCase(c *RCase, arch int, emit func(interface{})) {
 			}
 		})
 		defer fgflate.VerifSetReaderTrace(nil)
+		// the sizes the window and the header staging are built with (WindowMech's assumptions)
+		hs, behind, margin, longest, staging := fgflate.VerifReaderConstants()
+		emit(MechEvent{Ev: "RMech", Case: c.ID, M: "const", A: hs, B: behind, C: margin, D: longest})
+		emit(MechEvent{Ev: "RMech", Case: c.ID, M: "hdr", A: staging})
 	}
 	var u readerUnderTest
 	have := false
